@@ -40,6 +40,11 @@ func c02mkLeaf(typ, cmp, arg string, strLen int) c02leaf {
 		case "enum":
 			l.cs, _ = vxEnumCell(false)
 		}
+	case "pat": // like/ilike with the concrete pattern b% (B% for ilike)
+		l.cs = "b%"
+		if cmp == "ilike" {
+			l.cs = "B%"
+		}
 	case "fconst": // float constant against an int column: truncated
 		l.cf = vx.Float64()
 		vx.Assume(l.cf > -1e15 && l.cf < 1e15)
@@ -76,6 +81,8 @@ func (l c02leaf) filter() Filter {
 		}
 	case "fconst":
 		f.Arg = l.cf
+	case "pat":
+		f.Arg = l.cs
 	case "list":
 		switch l.typ {
 		case "int":
@@ -264,6 +271,10 @@ func (l c02leaf) ref(a, b vxCol, p int) bool {
 			return vx.UFBool("p1", c02ptr(x, xn))
 		case "fn2":
 			return vx.UFBool("p2", c02ptr(x, xn), c02ptr(b.s[p], b.null[p]))
+		case "like":
+			return !xn && len(x) > 0 && x[0] == 'b'
+		case "ilike":
+			return !xn && len(x) > 0 && (x[0] == 'b' || x[0] == 'B')
 		}
 		y, yn := l.cs, false
 		if l.arg == "col" {
@@ -300,6 +311,13 @@ func VX_C02_leaf() {
 	}
 	a := vxMakeCol(typ, P, strLen)
 	b := vxMakeCol(btyp, P, strLen)
+	if arg == "pat" && typ == "string" {
+		for _, sv := range a.s {
+			for k := 0; k < len(sv); k++ {
+				vx.Assume(sv[k] < 0x80)
+			}
+		}
+	}
 	x := vxMakeCol("int", P, 0)
 	var ixv []uint32
 	if typ == "string" || typ == "enum" {
@@ -344,6 +362,15 @@ func VX_C02_leaf() {
 		clause = Or(K, L)
 	case "or_rev":
 		clause = Or(L, K)
+	case "or_inv": // adjacent plain filters in one Or, the second one negated through Inverse
+		K.Inverse = true
+		clause = Or(L, K)
+	case "or_inv_first":
+		K.Inverse = true
+		clause = Or(K, L)
+	case "and_inv":
+		K.Inverse = true
+		clause = And(L, K)
 	case "or_notl":
 		clause = Or(K, Not(L))
 	case "or_notk":
@@ -382,8 +409,10 @@ func VX_C02_leaf() {
 			want = vx.Or(kv, lv)
 		case "or_notl":
 			want = vx.Or(kv, vx.Not(lv))
-		case "or_notk":
+		case "or_notk", "or_inv", "or_inv_first":
 			want = vx.Or(lv, vx.Not(kv))
+		case "and_inv":
+			want = vx.And(lv, vx.Not(kv))
 		case "not_or":
 			want = vx.Not(vx.Or(kv, lv))
 		case "and_or":
